@@ -21,7 +21,8 @@ def cases(seed, tier):
     out = []
     reps = 90 if tier == 'quick' else 2500
     extras_pool = [[], [], ['duplicate'], ['negated'], ['affine'], ['noisy_copy'], ['two_valued'], ['constant'],
-                   ['duplicate', 'constant'], ['negated', 'noisy_copy']]
+                   ['duplicate', 'constant'], ['negated', 'noisy_copy'], ['timestamp'], ['tiny_values'], ['sum'],
+                   ['sum', 'timestamp'], ['outlier'], ['outlier', 'sum']]
     for r in range(reps):
         spec = mv.random_table_spec(rng, tier, n=int(rng.choice([2, 3, 50, 200, 1000], p=[.05, .05, .2, .5, .2])))
         spec['extras'] = list(extras_pool[int(rng.integers(len(extras_pool)))])
@@ -72,6 +73,19 @@ def check_correlation(ctx, model, df, where, prop='C02'):
     ctx.check(err.max() <= 2 * EPS32, 'corr.recomputed', prop + ':correlation-not-pearson-of-normal-scores',
               lambda: dict(where, entry=[int(k[0]), int(k[1])], got=A[k], ref=Cref[k]))
     ctx.maxstat('|C - C_ref|', err.max(), where)
+    # "a numerically singular matrix is regularised": when the recomputed matrix is clearly singular
+    # (condition number beyond 1e3/eps, far from the library's own 1/eps threshold) a ridge must be there
+    lam_ref = np.linalg.eigvalsh(Cref)
+    if prop == 'C02' and lam_ref.max() > 0 and lam_ref.min() <= lam_ref.max() * np.finfo(float).eps / 1e3:
+        # the library regularises when cond(C) > 1/eps; rounding can leave a perfectly dependent pair with a
+        # condition number just below that threshold (known finding F29): name that mechanism separately
+        own_cond = np.linalg.cond(A)
+        mech = prop + ':singular-correlation-not-regularised'
+        if own_cond <= 1.0 / np.finfo(float).eps:
+            mech += ':condition-number-just-below-library-threshold'
+        ctx.check(lam.min() >= EPS32 / 4, 'corr.singular-is-regularised', mech,
+                  lambda: dict(where, min_eig=float(lam.min()), min_eig_unregularised=float(lam_ref.min()),
+                               cond=float(own_cond)))
     return A
 
 
